@@ -363,6 +363,7 @@ type sx struct {
 	draining, inSync, awaiting, crashedFlag atomic.Bool
 	queued, arrived, finished               int
 	dead                                    bool
+	finishFailed                            bool
 	regConflict                             bool
 
 	window  uint64
@@ -928,10 +929,29 @@ func (x *sx) run(line string) string {
 			}
 		case strings.Contains(err.Error(), "reprocessing"):
 			res = "err:reprocess"
+			x.violation("finish-fatal-reprocess", "FinishStateSync fails while reprocessing to the tip: %v", err)
+			x.finishFailed = true
 		case strings.Contains(err.Error(), "duplicate health checker"):
 			res = "err:duplicate-checker"
 		case strings.Contains(err.Error(), "failed to fetch parent"):
 			res = "err:parentfetch"
+			// FinishStateSync failed fatally and the VM stays not ready. Classify: is there a processing
+			// block whose parent the engine has already rejected (finish ran between the rejects of a
+			// transitive rejection; Reject does not take chainLock)?
+			orphan := ""
+			pn := x.procNums()
+			for _, p := range x.eng.processing {
+				b := x.objs[p].Input
+				if _, ok := pn[b.P]; !ok && x.eng.rejectedNum[b.P] {
+					orphan = fBlk(b)
+				}
+			}
+			if orphan != "" {
+				x.violation("finish-fatal-child-of-rejected-still-processing", "FinishStateSync fails (VM never ready): processing %s has a rejected parent", orphan)
+			} else {
+				x.violation("finish-fatal-parentfetch", "FinishStateSync fails with a parent fetch error")
+			}
+			x.finishFailed = true
 		default:
 			res = "err:other"
 		}
@@ -1232,6 +1252,11 @@ func (g *vGen) next(x *sx) string {
 		g.phase = 9
 		return "last"
 	}
+	if x.finishFailed {
+		g.phase = 8
+		g.tail = []string{"cila", "last"}
+		return "health"
+	}
 	// C21 script points
 	if g.c21 {
 		e := &x.eng
@@ -1446,6 +1471,9 @@ var corpusC21 = []string{
 	"init 2 2 0 100 99 0 1", "start 100 99 0 0", "parse 101 100 1 0", "verify 2", "accept 2", "parse 102 101 2 0", "verify 3", "accept 3",
 	"parse 103 102 3 1", "verify 4", "parse 104 103 4 0", "verify 5", "parse 105 102 3 0", "verify 6", "pref 104", "health",
 	"finish 100 99 0 0 100", "health", "cila", "cipref", "parse 106 103 4 0", "verify 8", "accept 6", "health", "reject 4", "health", "reject 5", "health", "fin", "cila", "last",
+	// KNOWN FINDING witness: finish between the two rejects of a transitive rejection -> fatal error, never ready
+	"init 2 2 0 100 99 0 1", "start 100 99 0 0", "parse 101 100 1 0", "verify 2", "parse 102 101 2 0", "verify 3", "parse 103 100 1 0", "verify 4",
+	"accept 4", "reject 2", "finish 103 100 1 0 103", "health", "cila", "last",
 	// restart mid-sync (not ready at initialize)
 	"init 3 3 0 100 99 0 0", "health", "cila", "parse 101 100 1 0", "verify 1", "accept 1", "finish 100 99 0 0 100", "cila", "health", "last",
 }
